@@ -308,4 +308,77 @@ THEOREM FreshAfterRecreate ==
     BY <1>7 DEF ListedKids
   <2> QED BY <2>1, <1>6
 <1> QED BY <1>7
+
+\* ---- C10: a re-created FILE holds only the newly written bytes, whatever the lower layers hold at the path
+LEMMA UpperWins ==
+  ASSUME NEW ls, NEW n \in Nat, n >= 1, DOMAIN ls = 1..n, NEW wo, NEW a, HasIn(ls[1], a)
+  PROVE  Lookup(ls, wo, a) = ls[1][a]
+<1>1. \E k \in DOMAIN ls : HasIn(ls[k], a) OBVIOUS
+<1>2. /\ FirstLayer(ls, a) \in DOMAIN ls /\ \A j \in DOMAIN ls : HasIn(ls[j], a) => FirstLayer(ls, a) <= j
+  BY <1>1, FirstLayerProps
+<1>3. FirstLayer(ls, a) = 1 BY <1>2
+<1> QED BY <1>3 DEF Lookup
+
+THEOREM FreshFileAfterRecreate ==
+  ASSUME UniverseOK, PrefixClosedAll, NEW ls, LayersOK(ls), NEW wo, NEW p \in Universe, NEW c \in Seq(Nat),
+         OCreateFile(ls, wo, p, c).c = "ok"
+  PROVE  LET r == OCreateFile(ls, wo, p, c) IN ReadPath([ls EXCEPT ![1] = r.up], r.wo, p) = File(c)
+<1> DEFINE e == EnsureParent(ls, wo, p)
+<1> DEFINE ls2 == [ls EXCEPT ![1] = e.t]
+<1> DEFINE r == OCreateFile(ls, wo, p, c)
+<1> DEFINE ls3 == [ls EXCEPT ![1] = r.up]
+<1>a. p \in Seq(N) /\ p # <<>> /\ p # Root BY DEF UniverseOK, Root
+<1>b. DOMAIN ls = 1..Len(ls) /\ Len(ls) \in Nat /\ Len(ls) >= 1 /\ 1 \in DOMAIN ls BY DEF LayersOK, LayersType
+<1>0. GetParentOK(ls, wo, p) /\ e.ok
+  <2>1. GetParentOK(ls, wo, p) BY DEF OCreateFile, Res
+  <2>2. e.ok BY <2>1 DEF OCreateFile, Res
+  <2> QED BY <2>1, <2>2
+<1>1. "ok" \in CreateFile(e.t, p, c).allowed /\ r.up = CreateFile(e.t, p, c).t /\ r.wo = wo \ {p}
+  <2>1. ReadPath(ls2, wo, p).k # "dir" BY <1>0 DEF OCreateFile, Res
+  <2>2. r = IF "ok" \in CreateFile(e.t, p, c).allowed THEN Res("ok", CreateFile(e.t, p, c).t, wo \ {p}) ELSE Res("err", e.t, wo)
+    BY <1>0, <2>1 DEF OCreateFile
+  <2> QED BY <2>2 DEF Res
+<1>2. r.up = [e.t EXCEPT ![p] = File(c)] BY <1>1 DEF CreateFile, Ok, Fail, AnyErr, ErrClasses
+<1>3. e.t \in [Universe -> [k : {"none", "dir", "file"}, d : Seq(Nat)]]
+      /\ \A x \in Prefixes(Parent(p)) : Parent(p) # Root => e.t[x] = Dir
+  <2>0. ls[1] \in [Universe -> [k : {"none", "dir", "file"}, d : Seq(Nat)]] BY <1>b DEF LayersOK, LayersType
+  <2>1. CASE Parent(p) = Root BY <2>1, <1>0, <2>0 DEF EnsureParent, UpperCreateDirAll, GetParentOK
+  <2>2. CASE Parent(p) # Root
+    <3>1. Parent(p) \in Universe BY <2>2 DEF UniverseOK, Root
+    <3>2. e = [ok |-> "ok" \in CreateDirAll(ls[1], Parent(p)).allowed, t |-> CreateDirAll(ls[1], Parent(p)).t]
+      BY <2>2, <1>0 DEF EnsureParent, UpperCreateDirAll, GetParentOK
+    <3>3. ~(\E x \in Prefixes(Parent(p)) : ls[1][x].k = "file") BY <3>2, <1>0 DEF CreateDirAll, InvErr, AnyErr, ErrClasses
+    <3>4. e.t = [x \in Universe |-> IF x \in Prefixes(Parent(p)) THEN Dir ELSE ls[1][x]] BY <3>2, <3>3 DEF CreateDirAll, Ok
+    <3>5. Prefixes(Parent(p)) \subseteq Universe BY <3>1 DEF PrefixClosedAll
+    <3> QED BY <3>4, <3>5, <2>0 DEF Dir
+  <2> QED BY <2>1, <2>2
+<1>4. ls3[1] = r.up /\ DOMAIN ls3 = 1..Len(ls) BY <1>b
+<1>5. r.up[p] = File(c) /\ HasIn(r.up, p) BY <1>2, <1>3 DEF HasIn, File
+<1>6. Lookup(ls3, r.wo, p) = File(c) BY <1>4, <1>5, <1>b, UpperWins
+<1>7. \A a \in StrictAncestors(p) : Lookup(ls3, r.wo, a).k = "dir"
+  <2>1. CASE Parent(p) = Root
+    <3>1. Len(p) = 1 BY <2>1, <1>a DEF Parent, Root
+    <3> QED BY <3>1 DEF StrictAncestors
+  <2>2. CASE Parent(p) # Root
+    <3>1. StrictAncestors(p) = Prefixes(Parent(p))
+      <4>1. Len(Parent(p)) = Len(p) - 1 /\ Parent(p) = SubSeq(p, 1, Len(p) - 1) BY <1>a DEF Parent
+      <4>2. ASSUME NEW j \in 1..(Len(p) - 1) PROVE SubSeq(p, 1, j) = SubSeq(Parent(p), 1, j)
+        <5>1. SubSeq(p, 1, j) \in Seq(N) /\ Len(SubSeq(p, 1, j)) = j BY <1>a
+        <5>2. SubSeq(Parent(p), 1, j) \in Seq(N) /\ Len(SubSeq(Parent(p), 1, j)) = j BY <1>a, <4>1
+        <5>3. \A m \in 1..j : SubSeq(p, 1, j)[m] = SubSeq(Parent(p), 1, j)[m] BY <1>a, <4>1
+        <5> QED BY <5>1, <5>2, <5>3, SeqEqual
+      <4> QED BY <4>1, <4>2 DEF StrictAncestors, Prefixes
+    <3>2. Parent(p) \in Universe BY <2>2 DEF UniverseOK, Root
+    <3>3. ASSUME NEW a \in Prefixes(Parent(p)) PROVE Lookup(ls3, r.wo, a).k = "dir"
+      <4>0. a \in Universe BY <3>2 DEF PrefixClosedAll
+      <4>1. a # p
+        <5>1. Len(a) <= Len(p) - 1 BY <1>a DEF Prefixes, Parent
+        <5> QED BY <5>1, <1>a
+      <4>2. r.up[a] = Dir BY <1>2, <1>3, <4>0, <4>1, <2>2
+      <4>3. HasIn(ls3[1], a) BY <4>2, <1>4 DEF HasIn, Dir
+      <4>4. Lookup(ls3, r.wo, a) = ls3[1][a] BY <4>3, <1>4, <1>b, UpperWins
+      <4> QED BY <4>4, <4>2, <1>4 DEF Dir
+    <3> QED BY <3>1, <3>3
+  <2> QED BY <2>1, <2>2
+<1> QED BY <1>6, <1>7, <1>a DEF ReadPath
 =============================================================================
